@@ -347,6 +347,7 @@ func zzCalls(name string) int { panic("spec only") }
 //@ emits hsms.(transport).Write, hsms.(*ConnectionMetrics).incDataMsgSend, hsms.(*connection).dropNotSelected, hsms.(*ConnectionMetrics).incDataMsgDropNotSelected, hsms.(*connection).TCPDown, IsSelected:true, IsSelected:false
 //@ ensures [gate]  specIsData(msg) && zzCalls("IsSelected:false") > 0 ==>
 //@                 zzCalls("hsms.(transport).Write") == 0 && result == ErrNotSelectedState && zzCalls("hsms.(*connection).dropNotSelected") == 1
+//@ ensures [dropm] zzCalls("hsms.(*ConnectionMetrics).incDataMsgDropNotSelected") == zzCalls("hsms.(*connection).dropNotSelected")
 //@ ensures [ctl]   !specIsData(msg) ==> zzCalls("hsms.(*connection).dropNotSelected") == 0 && zzCalls("hsms.(*ConnectionMetrics).incDataMsgSend") == 0
 //@ ensures [once]  zzCalls("hsms.(transport).Write") <= 1
 //@ ensures [ok]    result == nil ==> zzCalls("hsms.(transport).Write") == 1
@@ -392,4 +393,4 @@ func specIsRejectErr(err error) bool { _, ok := err.(*RejectError); return ok }
 //@ ensures [gate]  specIsData(msg) && zzCalls("IsSelected:false") > 0 ==> zzCalls("chan.send") == 0 &&
 //@                 result == ErrNotSelectedState && zzCalls("hsms.(*ConnectionMetrics).incDataMsgDropNotSelected") == 1
 //@ ensures [ctl]   !specIsData(msg) ==> zzCalls("hsms.(*ConnectionMetrics).incDataMsgDropNotSelected") == 0
-//@ ensures [queue] result == nil ==> zzCalls("chan.send") == 1
+//@ ensures [queue] zzCalls("chan.send") <= 1 && (zzCalls("chan.send") == 1 ==> result == nil)
